@@ -7,6 +7,12 @@ import IbcVerif.Lemmas.ChainMap
 namespace IbcVerif.Chain
 open FMap
 
+/- keep the elaborator from evaluating the external-answer helpers while it normalises `Decidable`
+   instances of handler guards (they bottom out in string parsing) -/
+attribute [local irreducible] parseClientId route clientStatus clientLatestHeight clientTimestampAt verify
+  nanosToSecsU64 timeoutInternalSec blockInternalSec v2TimeoutWindow packetValidV2 wrapI64
+  isAllowedRelayer baseClient pickVersion isSupportedVersion sendV2ClientGuards
+
 /-- split a hypothesis `handler … = .ok s'` along all branches of the handler, discarding the
     branches that return an error -/
 macro "esplit " h:ident : tactic =>
@@ -119,12 +125,29 @@ theorem sendPacketV2_ok {s s' : ChainState} {env : Env} {src : Id} {tt seq : Nat
       s' = { s with nextSend := s.nextSend.set src (seq + 1),
                     commitV2 := s.commitV2.set (src, seq) ⟨cp.1, tt, payloads⟩ } := by
   unfold sendPacketV2 at h
-  simp only at h
-  esplit h
-  simp only [Except.ok.injEq, Prod.mk.injEq] at h
-  obtain ⟨h1, h2⟩ := h
-  subst h2
-  exact ⟨_, by assumption, by assumption, h1.symm⟩
+  cases hcp : s.cpV2.get src with
+  | none => simp [hcp] at h
+  | some cp =>
+    obtain ⟨cpId, pfx⟩ := cp
+    simp only [hcp] at h
+    cases hw : v2TimeoutWindow env tt with
+    | error e => simp [hw] at h
+    | ok u =>
+      simp only [hw] at h
+      cases hn : s.nextSend.get src with
+      | none => simp [hn] at h
+      | some n =>
+        simp only [hn] at h
+        by_cases hv : packetValidV2 payloads n tt
+        · simp only [hv, Bool.not_true, Bool.false_eq_true, if_false] at h
+          cases hg : sendV2ClientGuards s env src tt with
+          | error e => simp [hg] at h
+          | ok u2 =>
+            simp only [hg, Except.ok.injEq, Prod.mk.injEq] at h
+            obtain ⟨h1, h2⟩ := h
+            subst h2
+            exact ⟨_, rfl, rfl, h1.symm⟩
+        · simp [hv] at h
 
 theorem recvPacketV2_ok {s s' : ChainState} {env : Env} {p : PacketV2}
     (h : recvPacketV2 s env p = .ok s') :
